@@ -37,10 +37,21 @@ def entry_of(kind, e, sc, st=0):
     return ent
 
 
+def _fresh(x):
+    """an option value as a caller computes it at run time (read from a file, lower-cased, joined): an equal
+    string that is not the interned literal"""
+    return "".join(list(x)) if isinstance(x, str) and len(x) > 1 else x
+
+
 def apply_op(tier, op, args, sc, kind):
     """Apply a (possibly mutating) operation; returns the resulting tier object."""
     name = op
     st = _style(op, args)
+    if (st >> 7) & 1:
+        args = dict(args)
+        for k in ("mode", "report"):
+            if k in args:
+                args[k] = _fresh(args[k])
     dflt = st % 3 == 0          # leave out trailing arguments that equal the documented default
     if name == "crop":
         a, b = _num(sc.f(args["a"]), st, 1), _num(sc.f(args["b"]), st, 2)
